@@ -211,6 +211,33 @@ func init() {
 		}
 		return t.e.ts.Bool(types.ConvertibleTo(r.t, tt.v.(*RType).t))
 	}
+	noop := func(t *Thread, fn *ssa.Function, args []Value, pos token.Pos) Value { return nil }
+	for _, n := range []string{"log.Printf", "log.Println", "log.Print", "runtime.Gosched", "runtime.KeepAlive"} {
+		stubs[n] = noop
+	}
+	bitsLen := func(t *Thread, fn *ssa.Function, args []Value, pos token.Pos) Value {
+		x := args[0].(*Term)
+		if !x.IsConst {
+			t.e.unsupported("math/bits.Len of a symbolic value")
+		}
+		n := 0
+		for v := x.C; v != 0; v >>= 1 {
+			n++
+		}
+		return t.e.ts.BV(64, uint64(n))
+	}
+	for _, n := range []string{"math/bits.Len", "math/bits.Len64", "math/bits.Len32", "math/bits.Len16", "math/bits.Len8"} {
+		stubs[n] = bitsLen
+	}
+	stubs["runtime.NumGoroutine"] = func(t *Thread, fn *ssa.Function, args []Value, pos token.Pos) Value {
+		n := 0
+		for _, o := range t.e.threads {
+			if !o.done {
+				n++
+			}
+		}
+		return t.e.ts.BV(64, uint64(n))
+	}
 	stubs["reflect.DeepEqual"] = func(t *Thread, fn *ssa.Function, args []Value, pos token.Pos) Value {
 		t.e.unsupported("reflect.DeepEqual")
 		return nil
@@ -363,7 +390,7 @@ func stubAfterFunc(t *Thread, fn *ssa.Function, args []Value, pos token.Pos) Val
 }
 
 // purePackages: standard-library helper packages whose (generic) Go bodies are interpreted as they are.
-var purePackages = map[string]bool{"maps": true, "slices": true, "cmp": true, "context": true}
+var purePackages = map[string]bool{"maps": true, "slices": true, "cmp": true, "context": true, "sort": true}
 
 // prefixStub matches stubs for generic receiver types (atomic.Pointer[T]).
 func prefixStub(name string) stubFn {
